@@ -44,7 +44,7 @@ LEAN_MODULES = {
     "C14": ["TFV.Properties.SelfConf"],
     "C15": ["TFV.Properties.Adapt"],
     "C16": ["TFV.Properties.Split", "TFV.Properties.Src.GetNJobs"],
-    "C17": ["TFV.Properties.EA", "TFV.Properties.Heap"],
+    "C17": ["TFV.Properties.EA", "TFV.Properties.Heap", "TFV.Properties.Src.UpdateData"],
     "C18": ["TFV.Properties.Estim"],
     "C19": ["TFV.Properties.Metrics", "TFV.Properties.Src.MetricCounts"],
     "C20": ["TFV.Properties.Bench"],
@@ -71,6 +71,7 @@ SRC_KERNELS = {
             "standard_crossover", "Tree_get_common_region", "one_point_crossoverGP"],
     "C11": ["binary_search_interval", "check_for_value", "argsort_k", "tournament_selection", "proportional_selection", "rank_selection", "sattolo_shuffle", "random_sample", "random_weighted_sample"],
     "C16": ["get_n_jobs"],
+    "C17": ["EA_update_data"],
     "C19": ["recall_counts", "precision_counts", "f1_counts"],
 }
 
